@@ -43,7 +43,7 @@ def then_valid(r):
 
 def degenerate(rng, tier):
     hs = []
-    weird_lang = [b"", b"a", b"ab", b"ENG", b"\xff\xfe\xfd", b"abcd", "ééé".encode(), b"\x00\x00\x00", b"123"]
+    weird_lang = [b"", b"a", b"ab", b"ENG", "\ufffd\ufffd\ufffd".encode(), b"abcd", "ééé".encode(), b"\x00\x00\x00", b"123", "\U0001F600ab".encode(), "a\u20acb".encode()]
     for lang in weird_lang:
         hs.append({"base": 0, "cfg": muxgen.DEFAULT_CFG, "ops": [{"add": muxgen.tc("avc", lang=lang)}, {"w": [1, 10, 0, True, "aa"]}]})
     for ts in (0, 1, U32 - 1):
@@ -86,7 +86,8 @@ def random_wild(rng):
             if a["kind"] == "avc" and rng.random() < 0.5:
                 a["sps"] = "67" * rng.choice([0, 1, 3, 4])
             if rng.random() < 0.3:
-                a["lang"] = bytes(rng.randrange(256) for _ in range(rng.randint(0, 5))).hex()
+                # a Rust String holds valid UTF-8 only: invalid sequences are replaced before the value reaches the API
+                a["lang"] = bytes(rng.randrange(256) for _ in range(rng.randint(0, 5))).decode("utf-8", "replace").encode("utf-8").hex()
     if rng.random() < 0.2:
         h["cfg"] = dict(h["cfg"], timescale=rng.choice([0, 1, U32 - 1]))
     return h
